@@ -123,7 +123,7 @@ type Case struct {
 	Default bool
 	// CaseKw: the default arm is spelled "case default" (accepted alternative)
 	CaseKw bool `json:",omitempty"`
-	Body    []Stmt
+	Body   []Stmt
 }
 
 // Switch is switch (subj) { case .. {..} default {..} }
